@@ -4,7 +4,7 @@ prop("C15", pkg="c15",
           ",string fields, values failing midway (NaN, invalid Number/RawMessage), nil embedded pointers; also AppendEscape / AppendUnescape. Oracle: result "
           "prefix == b, suffix == Append(nil,...), same error presence, canaries below the destination, inside b[:len(b)] and beyond cap(b) intact. "
           "Non-trivial = growth forced mid-value (p>0 and spare<n) or spare in {n-1,n,n+1}; distinct = FNV-64 of the whole case.",
-     quick=dict(shards=16, scale=1, timeout=900),
+     quick=dict(shards=16, scale=2, timeout=900),
      thorough=dict(shards=16, rounds=8, scale=1.5, timeout=3000),
      builds=[dict(name="default", tags=[], race=False), dict(name="purego", tags=["purego"], race=False, thorough_only=True)],
      technique="rapid property-based metamorphic testing (Append(b,v) = b ++ Append(nil,v)) with canary arenas; exhaustive sweep of []byte lengths x geometries",
